@@ -62,6 +62,15 @@ func ChildLock() int {
 			} else {
 				fmt.Println("ok")
 			}
+		case "spawn":
+			// a bystander process started while the database may be open: it must not inherit the lock
+			by := exec.Command("sleep", "300")
+			if err := by.Start(); err != nil {
+				fmt.Println("err " + err.Error())
+				continue
+			}
+			defer func() { _ = by.Process.Kill(); _, _ = by.Process.Wait() }()
+			fmt.Println("ok")
 		case "exit":
 			if db != nil {
 				_ = db.Close()
@@ -72,6 +81,9 @@ func ChildLock() int {
 	}
 	return 0
 }
+
+// bystander processes started by the in-process actors (killed at the end of the check)
+var bystanders []*exec.Cmd
 
 type lockActor struct {
 	name   string
@@ -103,6 +115,13 @@ func (a *lockActor) do(cmdline string) (bool, string) {
 				return false, err.Error()
 			}
 			return true, ""
+		case "spawn":
+			by := exec.Command("sleep", "300")
+			if err := by.Start(); err != nil {
+				return false, err.Error()
+			}
+			bystanders = append(bystanders, by)
+			return true, ""
 		}
 		return true, ""
 	}
@@ -120,7 +139,7 @@ func (a *lockActor) do(cmdline string) (bool, string) {
 // C35 directory locking excludes a second writer.
 func C35(c *core.Ctx) {
 	c.Rule("a coordinator drives 3 child processes and 2 in-process actors through PRNG-chosen sequences of open-read-write / open-read-only / close on two databases " +
-		"(one with Dir==ValueDir, one with separate directories, and a third configuration sharing only the ValueDir), plus racing read-write opens released together; oracle: an " +
+		"(one with Dir==ValueDir, one with separate directories, and a third configuration sharing only the ValueDir), plus racing read-write opens released together; now and then a holder starts an unrelated long-lived process (sleep) while its database is open, which must not keep the lock alive after Close; oracle: an " +
 		"flock model per directory - read-write succeeds iff nobody holds either directory, read-only succeeds iff no read-write holder, at most one racer wins, after Close the " +
 		"next open succeeds; distinct = (actor kind, requested mode, holders present, outcome) classes")
 	work := c.WorkDir()
@@ -195,8 +214,24 @@ func C35(c *core.Ctx) {
 		return true
 	}
 	steps := c.Pick(1200, 3000)
+	nSpawn := 0
+	defer func() {
+		for _, by := range bystanders {
+			_ = by.Process.Kill()
+			_, _ = by.Process.Wait()
+		}
+		bystanders = nil
+	}()
 	for s := 0; s < steps; s++ {
 		a := actors[r.Intn(len(actors))]
+		if a.mode != "" && nSpawn < 24 && r.Intn(12) == 0 {
+			// the holder starts an unrelated long-lived process (an application forking a helper
+			// while its database is open): the lock must go away with Close all the same
+			if ok, _ := a.do("spawn"); ok {
+				nSpawn++
+				c.Count("lock.bystanders_started_while_holding", 1)
+			}
+		}
 		if a.mode != "" && r.Intn(2) == 0 {
 			ok, msg := a.do("close")
 			c.Eval(1)
